@@ -58,16 +58,31 @@ def r10_2(ctx):
         raise AnalysisError("SamplingMethod.transcribe: phase==2 branch not found")
     b = p2[0]
     events = []
-    for st in b.body:
-        for c in walk_no_nested(st):
-            if is_call_to(c, "set_initial", "self") and len(c.args) == 3:
-                events.append(("set_initial", ast.unparse(c.args[2]), c))
-            elif is_call_to(c, "set_parameter", "self"):
-                events.append(("set_parameter", "", c))
-            elif isinstance(c, ast.Call) and ast.unparse(c.func) == "opti.debug.value" and len(c.args) == 2 and ast.unparse(c.args[1]) == "opti.initial()":
-                events.append(("read", ast.unparse(c.args[0]), c))
-            elif isinstance(c, ast.Call) and ast.unparse(c.func) == "self.time_grid" and len(c.args) == 3:
-                events.append(("grid", ", ".join(ast.unparse(a) for a in c.args), c))
+
+    def collect(stmts, host, subst):
+        for st in stmts:
+            for c in walk_no_nested(st):
+                if is_call_to(c, "set_initial", "self") and len(c.args) == 3:
+                    events.append(("set_initial", subst.get(ast.unparse(c.args[2]), ast.unparse(c.args[2])), c))
+                elif is_call_to(c, "set_parameter", "self"):
+                    events.append(("set_parameter", "", c))
+                elif isinstance(c, ast.Call) and ast.unparse(c.func) == "opti.debug.value" and len(c.args) == 2 and ast.unparse(c.args[1]) == "opti.initial()":
+                    events.append(("read", ast.unparse(c.args[0]), c))
+                elif isinstance(c, ast.Call) and ast.unparse(c.func) == "self.time_grid" and len(c.args) == 3:
+                    events.append(("grid", ", ".join(ast.unparse(a) for a in c.args), c))
+                elif isinstance(c, ast.Call) and isinstance(c.func, ast.Attribute) and ast.unparse(c.func.value) == "self" and c.func.attr not in ("set_initial", "set_parameter"):
+                    # a helper of the method that applies a guess table (apply_initial): its own sequence, with its table parameter bound
+                    g = P.resolve("SamplingMethod", c.func.attr)
+                    if g is not None and g is not host and any(is_call_to(x, "set_initial", "self") for x in walk_no_nested(g.node)):
+                        bind = {p_: ast.unparse(a) for p_, a in zip(g.params[1:], c.args)}
+                        ctx.scope(g)
+                        hosts.append(g)
+                        collect(g.node.body, g, bind)
+    hosts = [f]
+    collect(b.body, f, {})
+    f_seq = hosts[-1]
+    sc = ctx.scope(f_seq)
+    b = f_seq.node if f_seq is not f else b
     seq = [(k, v) for k, v, _ in events]
     want = [("set_initial", "stage._initial"), ("read", "self.T"), ("read", "self.t0"), ("grid", "t0_init, T_init, self.N"),
             ("set_initial", "initial"), ("set_initial", "stage._initial"), ("set_parameter", "")]
@@ -239,7 +254,7 @@ def r10_5(ctx):
             ok = len(last) == 1 and isinstance(last[0], ast.Constant) and last[0].value is False
         ctx.check(ok, "Stage.set_initial orders prioritised guesses first", detail="newest guess applied last: a horizon guess given after time-dependent guesses is applied after they were evaluated", expected="if priority: self._initial.move_to_end(var, last=False)", found="; ".join(ast.unparse(m) for m in mv), fi=g)
     sc = ctx.scope(f)
-    wt = [c for c in walk_no_nested(f.node) if is_call_to(c, "set_initial", "self._method")]
+    wt = [c for c in walk_no_nested(f.node) if is_call_to(c, "set_initial", "self._method") or is_call_to(c, "apply_initial", "self._method")]
     nf = ctx.norm(f)
     ok = len(wt) == 1 and [nf.key(t) for t, p in sc.guards(wt[0]) if p] == [Norm(None).key(ast.parse("self.master is not None and self.master.is_transcribed", mode="eval").body)]
     fa = [c for c in walk_no_nested(f.node) if is_call_to(c, "for_all_primitives")]
@@ -372,3 +387,58 @@ def r10_8(ctx):
 def r10_9(ctx):
     from .c11 import r11_7
     r11_7(ctx)
+
+
+def _derives_local_grid_guesses(f):
+    """does f assign a guess to self.T_local[..] / self.t0_local[..] (entries of a guess table)?"""
+    hits = []
+    for st in walk_no_nested(f.node):
+        if isinstance(st, ast.Assign) and isinstance(st.targets[0], ast.Subscript) and isinstance(st.targets[0].slice, ast.Subscript) \
+                and ast.unparse(st.targets[0].slice.value) in ("self.T_local", "self.t0_local"):
+            hits.append(ast.unparse(st.targets[0].slice.value))
+    return sorted(set(hits))
+
+
+@rule("R10.10", min_instances=3, desc="the starting values of the localised grid variables (T_local, t0_local) are derived from the guessed t0/T on every path that applies guesses to a live transcription: at transcription AND when set_initial is called afterwards")
+def r10_10(ctx):
+    """Necessary for 'guesses given before the first transcription or after it produce the same starting point' under
+    localize_t0 / localize_T / FreeGrid: the node times (hence every time-dependent guess) are functions of the local
+    variables' starting values, which only the derivation step sets."""
+    P = ctx.prog
+    owners = [f for f in P.all_functions(include_nested=False) if f.cls is not None and f.cls.name in ("SamplingMethod",) and _derives_local_grid_guesses(f)]
+    ctx.check(len(owners) == 1 and _derives_local_grid_guesses(owners[0]) == ["self.T_local", "self.t0_local"], "one place derives the local-grid guesses from the guessed horizon",
+              detail="derivation of T_local / t0_local starting values", expected="initial[self.t0_local[k]] = grid[k]; initial[self.T_local[k]] = grid[k+1]-grid[k]",
+              found="; ".join("%s: %s" % (f.qualname, _derives_local_grid_guesses(f)) for f in owners), fi=(owners[0] if owners else P.own_method("SamplingMethod", "transcribe")))
+    if len(owners) != 1:
+        return
+    owner = owners[0]
+    entries = {"transcription (phase 2)": P.own_method("SamplingMethod", "transcribe"), "Stage.set_initial on a transcribed OCP": P.own_method("Stage", "set_initial")}
+    for label, e in entries.items():
+        # calls through the method object: self._method.<m>(...) resolves to <m> of every concrete method class
+        seen = {e.qualname: e}
+        work = [e]
+        while work:
+            f = work.pop()
+            for c in walk_no_nested(f.node):
+                if not (isinstance(c, ast.Call) and isinstance(c.func, ast.Attribute)):
+                    continue
+                recv = ast.unparse(c.func.value)
+                cands = []
+                if recv in ("self._method", "stage._method", "self.master._method"):
+                    for cn in ["DirectMethod"] + P.subclasses("DirectMethod"):
+                        g = P.resolve(cn, c.func.attr)
+                        if g is not None:
+                            cands.append(g)
+                elif recv == "self" and f.cls is not None:
+                    for cn in [f.cls.name] + P.subclasses(f.cls.name):
+                        g = P.resolve(cn, c.func.attr)
+                        if g is not None:
+                            cands.append(g)
+                for g in cands:
+                    if g.qualname not in seen:
+                        seen[g.qualname] = g
+                        work.append(g)
+        ctx.check(owner.qualname in seen, "local-grid guesses are derived on the path: %s" % label,
+                  detail="a horizon guess given after transcription leaves T_local / t0_local at their old starting values (node times and time-dependent guesses disagree with the guessed horizon)",
+                  expected="%s reachable from %s" % (owner.qualname, e.qualname), found="reaches: " + ", ".join(sorted(q for q in seen if "set_initial" in q or "initial" in q.lower())[:8]), fi=e,
+                  sample={"entry": e.qualname, "owner": owner.qualname})
